@@ -73,6 +73,12 @@ class Server:
             fn = count(lambda: 'sekrit')
         elif pw == 'deferred':
             fn = count(lambda: defer.succeed('sekrit'))
+        elif pw == 'deferred-late':
+            # the provider answers later (an interactive prompt): the password arrives after whatever happens meanwhile
+            def late():
+                self.late = defer.Deferred()
+                return self.late
+            fn = count(late)
         elif pw == 'coroutine':
             async def co():
                 return 'sekrit'
@@ -103,6 +109,7 @@ class Server:
                 with open(path, 'wb') as f:
                     f.write(self.cookie_data)
             self.cookie_line = ' COOKIEFILE=' + tor_escape(path)
+        self.late = None
         self.proto = TorControlProtocol(fn)
         self.tr = proto_helpers.StringTransport()
         self.wbuf = b''
@@ -176,6 +183,12 @@ class Server:
                 self.proto.connectionLost(Failure(ConnectionLost()))
                 break
             self.proto.dataReceived(self.reply_for(line, resp).encode('latin-1'))
+            if not self.pending and self.late is not None and not self.late.called:
+                if self.case.get('late_disc'):
+                    # Tor hangs up while the password is still being asked for; then the provider delivers it
+                    self.log.append('late-disc')
+                    self.proto.connectionLost(Failure(ConnectionLost()))
+                self.late.callback('sekrit')
         return self.log
 
 
@@ -240,7 +253,12 @@ def gen_cases(rng, tier):
         for _ in range(700):
             ck = rng.choice(COOKIES) if rng.random() < 0.5 else rng.choice(['len32', 'len32-weirdpath'])
             sc = list(rng.choice(scripts)) if rng.random() < 0.6 else ['ok', rng.choice(['chal-good', 'chal-good', 'chal-wrong'] + list(VARIANTS))] + ['ok'] * 6
-            yield {'methods': rng.choice(mls), 'cookie': ck, 'pw': rng.choice(PWS), 'script': sc, 'wname': rng.randrange(len(WEIRD_NAMES))}
+            yield {'methods': rng.choice(mls), 'cookie': ck, 'pw': rng.choice(PWS), 'script': sc, 'wname': rng.randrange(len(WEIRD_NAMES)),
+                   'late_disc': rng.random() < 0.5}
+        for ms in (['H'], ['H', 'N'], ['C', 'H'], ['S', 'H'], ['o', 'H']):
+            for ck in ('nofile', 'ioerror', 'len31'):
+                for ld in (True, False):
+                    yield {'methods': ms, 'cookie': ck, 'pw': 'deferred-late', 'script': ['ok'] * 8, 'late_disc': ld}
 
 
 def cookie_bytes(ck):
@@ -254,7 +272,7 @@ def driver_line(c):
     ck = c['cookie'] if cb is None else 'd' + (cb.hex() or '-')
     if ck == 'd-':
         ck = 'd'
-    pw = {'absent': 'absent', 'empty-none': 'empty', 'empty-str': 'empty', 'raises': 'raises'}.get(c['pw'], 'v' + b'sekrit'.hex())
+    pw = {'absent': 'absent', 'empty-none': 'empty', 'empty-str': 'empty', 'raises': 'raises'}.get(c['pw'], 'v' + b'sekrit'.hex())   # (deferred-late: a value)
     cookie = cb or b''
     s2c = hm(S2C, cookie + CNONCE + SNONCE).hex()
     c2s = hm(C2S, cookie + CNONCE + SNONCE).hex()
@@ -287,6 +305,13 @@ def run_cases(cases, drv, tier):
         tags = ['cookie=' + c['cookie'], 'pw=' + c['pw'], 'outcome=' + next((x for x in im if x.startswith('ready')), 'pending'),
                 'auth=' + next((x.split(':')[1] for x in im if x.startswith('w:auth')), 'none')]
         # the chal "malformed" reply of the script only makes sense after an AUTHCHALLENGE; elsewhere it is a plain 250
+        if 'late-disc' in im:
+            # the connection went while the password was pending (outside the step machine: the model has no pending provider):
+            # the statement is direct — nothing is written afterwards and ready fails exactly once
+            i = im.index('late-disc')
+            spec = im[:i] + ['late-disc', 'ready:fail']
+            res.append(Result(c, im, None, spec, in_h=True, nontrivial=True, tags=tags + ['password-arrives-after-the-loss']))
+            continue
         res.append(Result(c, im, model, model, in_h=True, nontrivial=beyond, tags=tags))
     return res
 
